@@ -245,6 +245,91 @@ class Run:
                     rec['on'] = last['on']
                     rec['args'] = (rng.choice(strategies), rng.choice(names), '', False)
                     rec['res'] = w.user_rpc(last['on'], 'supvisors.start_process', *rec['args'])
+        elif kind == 'update_numprocs':
+            # dynamic change of numprocs on one Supervisor (programs declared with numprocs > 1 carry %(process_num))
+            progs = sorted({(g, p) for g, ps in w.spec_of(nick)['groups'].items() for p in ps})
+            if progs:
+                group, prog = rng.choice(progs)
+                multi = [gp for gp in progs if self.model[gp[0]]['programs'][gp[1]].get('numprocs', 1) > 1]
+                if multi and rng.random() < 0.75:
+                    group, prog = rng.choice(multi)
+                value = rng.choice([1, 1, 2, 3, 4, 4])
+                if rng.random() < 0.06:
+                    value = rng.choice([0, -1, 'two', 2.5])
+                rec['args'] = (prog, value, rng.random() < 0.5, rng.random() < 0.3)
+                # the processes that this change may create
+                if self.model[group]['programs'][prog].get('numprocs', 1) > 1:
+                    for g, ps in w.spec_of(nick)['groups'].items():
+                        if prog in ps:
+                            for i in range(1, 5):
+                                self.procs.setdefault(f'{g}:{prog}_{i:02d}', (g, prog))
+                rec['res'] = w.user_rpc(nick, 'supvisors.update_numprocs', *rec['args'])
+                self.count('numprocs_requests')
+                if rec['res'][0] in ('ok', 'deferred'):
+                    self.count('numprocs_requests_served')
+        elif kind == 'refused_numprocs_then_group_added_again':
+            # a change of numprocs refused for a program that does not support it, then the group is removed and added
+            # again on the same Supervisor, and the program disabled / enabled: a refused request must have no effect
+            single = sorted({(g, p) for g, ps in w.spec_of(nick)['groups'].items() for p in ps
+                             if self.model[g]['programs'][p].get('numprocs', 1) == 1})
+            if single:
+                group, prog = rng.choice(single)
+                rec['args'] = (prog, rng.choice([2, 3]), False, False)
+                rec['res'] = w.user_rpc(nick, 'supvisors.update_numprocs', *rec['args'])
+                self.count('numprocs_requests')
+                w.run_for(rng.choice([0.0, 0.5, 3.0]))
+                inst = w.instances[nick]
+                if inst.alive and inst.http_open and group in inst.sd.process_groups:
+                    w.user_rpc(nick, 'supervisor.stopProcessGroup', group, False)
+                    w.run_for(rng.choice([1.0, 3.0, 8.0]))
+                    if inst.alive and inst.http_open and \
+                            w.user_rpc(nick, 'supervisor.removeProcessGroup', group)[0] == 'ok':
+                        self.count('groups_removed')
+                        w.run_for(rng.choice([0.0, 0.5, 3.0]))
+                        if w.user_rpc(nick, 'supervisor.addProcessGroup', group)[0] == 'ok':
+                            self.count('groups_added_again')
+                            self.count('groups_added_again_after_a_refused_numprocs_change')
+                            w.run_for(rng.choice([0.0, 0.5, 3.0]))
+                            for method in rng.sample(['disable', 'enable'], 2):
+                                w.user_rpc(nick, 'supvisors.' + method, prog, False)
+                                w.run_for(0.5)
+        elif kind in ('enable', 'disable'):
+            progs = sorted({p for ps in w.spec_of(nick)['groups'].values() for p in ps})
+            if progs:
+                prog = rng.choice(progs)
+                rec['args'] = (prog, rng.random() < 0.5)
+                rec['res'] = w.user_rpc(nick, 'supvisors.' + kind, *rec['args'])
+                if rec['res'][0] in ('ok', 'deferred'):
+                    self.runtime_disabled[(nick, prog)] = (w.now, kind == 'disable')
+                    self.count('programs_%sd_at_run_time' % kind)
+        elif kind == 'remove_group':
+            # the group is stopped then removed from one Supervisor (supervisorctl remove)
+            present = sorted(w.instances[nick].sd.process_groups)
+            if present:
+                group = rng.choice(present)
+                rec['args'] = (group,)
+                w.user_rpc(nick, 'supervisor.stopProcessGroup', group, False)
+                w.run_for(rng.choice([0.0, 0.3, 2.0, 6.0]))
+                if w.instances[nick].alive and w.instances[nick].http_open:
+                    rec['res'] = w.user_rpc(nick, 'supervisor.removeProcessGroup', group)
+                    if rec['res'][0] == 'ok':
+                        self.count('groups_removed')
+        elif kind == 'add_group':
+            # a group removed earlier is added again (supervisorctl add)
+            absent = sorted(set(w.spec_of(nick)['groups']) - set(w.instances[nick].sd.process_groups))
+            if not absent:
+                gone = [(n, g) for n in live for g in sorted(set(w.spec_of(n)['groups']) -
+                                                                set(w.instances[n].sd.process_groups))]
+                if gone:
+                    nick, group = rng.choice(gone)
+                    rec['on'] = nick
+                    absent = [group]
+            if absent:
+                group = rng.choice(absent)
+                rec['args'] = (group,)
+                rec['res'] = w.user_rpc(nick, 'supervisor.addProcessGroup', group)
+                if rec['res'][0] == 'ok':
+                    self.count('groups_added_again')
         elif kind == 'dup':
             rec['res'] = self.duplicate_some_process()
         elif kind == 'dup_unmanaged':
